@@ -194,6 +194,12 @@ theorem C17_frame_struct_per_iteration :
     is what a nil slice encodes to, and what a foreign implementation that spreads the list chokes on). -/
 theorem C17_closure_arglist_is_array : Skeleton.current.pxArgsFreshPerInvocation = true := by decide
 
+/-- `mkRequest` / `mkResponse` / `parseRequest` describe what `marshal` and `unmarshal` are handed: the frame
+    structs themselves.  The four `Marshal` / `Unmarshal` methods of utils/messages.go do exactly that and
+    nothing else (checked against the regenerated skeleton) — in particular no member (such as the call id
+    a response must echo) is rewritten after decoding. -/
+theorem C17_codec_methods_are_plain : Skeleton.current.msgCodecPlain = true := by decide
+
 end Panrpc.Wire
 
 #print axioms Panrpc.Wire.C17_closure_arglist_is_array
@@ -205,3 +211,4 @@ end Panrpc.Wire
 #print axioms Panrpc.Wire.C17_envelope_xor
 #print axioms Panrpc.Wire.C17_foreign_accepted
 #print axioms Panrpc.Wire.C17_frame_struct_per_iteration
+#print axioms Panrpc.Wire.C17_codec_methods_are_plain
